@@ -839,6 +839,7 @@ ldb_recover_log_file(ldb_t *db, uint64_t log_number,
   int compactions = 0;
   ldb_memtable_t *mem = NULL;
   ldb_reader_t reader;
+  uint64_t log_end = 0; /* Offset just past the last complete record. */
 
   ldb_mutex_assert_held(&db->mutex);
 
@@ -873,6 +874,8 @@ ldb_recover_log_file(ldb_t *db, uint64_t log_number,
   /* Read all the records and add to a memtable. */
   while (ldb_reader_read_record(&reader, &record, &buf) && rc == LDB_OK) {
     ldb_seqnum_t last_seq;
+
+    log_end = reader.end_offset - reader.buffer.size;
 
     if (record.size < 12) {
       /* "log record too small" */
@@ -929,7 +932,11 @@ ldb_recover_log_file(ldb_t *db, uint64_t log_number,
     assert(db->log == NULL);
     assert(db->mem == NULL);
 
+    /* Only append to a log that ends exactly at a record boundary: records
+       written after a torn tail (the previous writer died in the middle of
+       a record) would be unreadable or reported as corruption later. */
     if (ldb_file_size(fname, &lfile_size) == LDB_OK &&
+        lfile_size == log_end &&
         ldb_appendfile_create(fname, &db->logfile) == LDB_OK) {
       ldb_log(db->options.info_log, "Reusing old log %s", fname);
 
